@@ -30,16 +30,19 @@ D=/verif/seeded/$STORE
 mkdir -p $D
 cp $OUT/$L.diff $D/patch.diff
 cp $OUT/${L}_demo_test.go $D/demo_test.go
-# run the check in /repo
-git -C /repo apply $D/patch.diff || { echo "patch does not apply to /repo"; exit 2; }
+# run the check on a scratch copy of /repo's working tree with the patch applied (never in /repo itself: its
+# working tree may hold uncommitted contract edits)
+SC=$(mktemp -d /tmp/seedrepo.XXXXXX)
+cp -r /repo/. $SC/ && rm -rf $SC/.git
+(cd $SC && git init -q . && git apply $D/patch.diff) || { echo "patch does not apply to /repo"; rm -rf $SC; exit 2; }
 PROPS="${4:-$P}"
 res=""
 for Q in $PROPS; do
-  r=$(cd /verif && RTV_OUT_DIR=/tmp/seedcheck bin/rtv check --property $Q --tier quick 2>&1 | grep -E "^(VIOLATION|KNOWN|C[0-9]+:)" | cut -c1-300)
+  r=$(cd /verif && RTV_OUT_DIR=/tmp/seedcheck-$STORE ${RTV:-bin/rtv} check -repo $SC --property $Q --tier quick 2>&1 | grep -E "^(VIOLATION|KNOWN|C[0-9]+:)" | cut -c1-300)
   res="$res
 $r"
 done
-git -C /repo checkout -- .
+rm -rf $SC /tmp/seedcheck-$STORE
 echo "check: $res"
 python3 - "$P" "$L" "$suite_nodemo" "$demo_clean" "$demo_mut" "$res" "${3:-}" "$OUT" "$STORE" <<'PY'
 import json,sys
